@@ -39,7 +39,7 @@ type rig struct {
 	pool   *core.TxPool
 	cfg    PoolCfg
 	logger *log.Logger
-	posted *types.WorkObject // last head announced by the harness (nil: none since creation)
+	n      int // number of accounts in use
 }
 
 var errStall = errors.New("stall")
@@ -59,7 +59,7 @@ func newRig(w *world, logger *log.Logger, cfg PoolCfg, genesis *ChainState) *rig
 		Lifetime: life, ReorgFrequency: reorgFrequency,
 	}
 	p := core.NewTxPool(pc, w.cfg, ch, logger, db)
-	return &rig{w: w, chain: ch, pool: p, cfg: cfg, logger: logger}
+	return &rig{w: w, chain: ch, pool: p, cfg: cfg, logger: logger, n: len(genesis.Accts)}
 }
 
 func (r *rig) stop() {
@@ -97,8 +97,8 @@ func (r *rig) barrier(timeout time.Duration) error {
 	if err := spin(func() bool { return r.pool.VerifC19Backlog() == 0 }); err != nil {
 		return err
 	}
-	if r.posted != nil {
-		want := r.posted.EVMRoot()
+	if posted := r.chain.lastPosted(); posted != nil {
+		want := posted.EVMRoot()
 		if err := spin(func() bool { return r.chain.lastRoot.Load().(common.Hash) == want && r.pool.VerifC19Backlog() == 0 }); err != nil {
 			return err
 		}
@@ -211,8 +211,8 @@ func (u *universe) id(s TxSpec) int {
 }
 
 func (r *rig) snapshot(u *universe) *Snap {
-	raw := r.pool.VerifC19Snapshot(r.w.internals())
-	s := &Snap{raw: raw, Accts: make([]AcctView, len(r.w.accts))}
+	raw := r.pool.VerifC19Snapshot(r.w.internals()[:r.n])
+	s := &Snap{raw: raw, Accts: make([]AcctView, r.n)}
 	idOf := func(t *types.Transaction) int {
 		sp, ok := r.w.specOf(t)
 		if !ok {
@@ -221,7 +221,7 @@ func (r *rig) snapshot(u *universe) *Snap {
 		}
 		return u.id(sp)
 	}
-	for i := range r.w.accts {
+	for i := 0; i < r.n; i++ {
 		s.Accts[i] = AcctView{Pending: []int{}, Queue: []int{}, PNonce: raw.PendingNonce[i], SNonce: raw.StateNonce[i], SBal: raw.StateBalance[i].String()}
 	}
 	for _, l := range raw.Pending {
